@@ -184,3 +184,102 @@ Theorem C12_exec_verdict : forall g o ob,
   known_oracle g o && wf_exec ob && forallb (field_pass g o) (efields g ob) && chains_known g ob.
 Proof. exact validate_exec_factor. Qed.
 Print Assumptions C12_exec_verdict.
+
+(* ==== histories: long-lived plugins read the role map through ONE long-lived home-chain poller (model: Pollers.v,
+   C18) whose configuration changes between rounds.  [hrun O d f evs]: the answers of a history evs of poller events
+   (Start, completed fetches — successful, failed, partial —, reads, Close) interleaved with plugin rounds, every
+   round served from the poller state of that moment (Model/RolesHist.v).  [cfg_at O d f evs k]: the Roles configuration
+   of the most recent successfully fetched home-chain configuration among the poller events before position k (the
+   empty one before the first success).  The theorems hold for EVERY event list (induction over it, through the C18
+   snapshot theorem): what was polled, looked up or validated earlier never enters a verdict. ==== *)
+Require Import Verif.Model.Pollers Verif.Model.RolesHist Verif.Proofs.PollersP Verif.Proofs.RolesHistP.
+
+(* the verdict of the k-th event, if it is a commit validation, is exactly the C12 characterisation evaluated on the
+   latest successfully fetched configuration *)
+Theorem C12_history_commit_verdict : forall O d f evs k retry o ob,
+  nth_error evs k = Some (HValC retry o ob) ->
+  let g := cfg_at O d f evs k in
+  nth_error (hrun O d f evs) k =
+  Some (Some (OVerdict (known_oracle g o && dest_configured g && wf_commit retry ob &&
+                        forallb (field_pass g o) (cfields g ob)))).
+Proof. exact hist_commit_verdict. Qed.
+Print Assumptions C12_history_commit_verdict.
+
+Theorem C12_history_exec_verdict : forall O d f evs k o ob,
+  nth_error evs k = Some (HValE o ob) ->
+  let g := cfg_at O d f evs k in
+  nth_error (hrun O d f evs) k =
+  Some (Some (OVerdict (known_oracle g o && wf_exec ob && forallb (field_pass g o) (efields g ob) &&
+                        chains_known g ob))).
+Proof. exact hist_exec_verdict. Qed.
+Print Assumptions C12_history_exec_verdict.
+
+(* accepted in round k => every field outside the recorded class is about a chain the observer is designated for in
+   the configuration fetched last before round k: a designation that was removed since does not count any more *)
+Theorem C12_history_commit_accepted_designated : forall O d f evs k retry o ob,
+  nth_error evs k = Some (HValC retry o ob) ->
+  nth_error (hrun O d f evs) k = Some (Some (OVerdict true)) ->
+  forall cl c, In (cl, c) (cfields (cfg_at O d f evs k) ob) -> known_class cl = false ->
+               designated (cfg_at O d f evs k) o c = true.
+Proof. exact hist_commit_accepted_designated. Qed.
+Print Assumptions C12_history_commit_accepted_designated.
+
+Theorem C12_history_exec_accepted_designated : forall O d f evs k o ob,
+  nth_error evs k = Some (HValE o ob) ->
+  nth_error (hrun O d f evs) k = Some (Some (OVerdict true)) ->
+  forall cl c, In (cl, c) (efields (cfg_at O d f evs k) ob) -> known_class cl = false ->
+               designated (cfg_at O d f evs k) o c = true.
+Proof. exact hist_exec_accepted_designated. Qed.
+Print Assumptions C12_history_exec_accepted_designated.
+
+(* role-conformant data w.r.t. the configuration fetched last (e.g. right after a designation was given) is accepted *)
+Theorem C12_history_commit_accept : forall O d f evs k retry o ob,
+  nth_error evs k = Some (HValC retry o ob) ->
+  let g := cfg_at O d f evs k in
+  known_oracle g o = true -> dest_configured g = true -> wf_commit retry ob = true ->
+  (forall cl c, In (cl, c) (cfields g ob) -> designated g o c = true) ->
+  nth_error (hrun O d f evs) k = Some (Some (OVerdict true)).
+Proof. exact hist_commit_accept. Qed.
+Print Assumptions C12_history_commit_accept.
+
+Theorem C12_history_exec_accept : forall O d f evs k o ob,
+  nth_error evs k = Some (HValE o ob) ->
+  let g := cfg_at O d f evs k in
+  known_oracle g o = true -> wf_exec ob = true -> chains_known g ob = true ->
+  (forall cl c, In (cl, c) (efields g ob) -> designated g o c = true) ->
+  nth_error (hrun O d f evs) k = Some (Some (OVerdict true)).
+Proof. exact hist_exec_accept. Qed.
+Print Assumptions C12_history_exec_accept.
+
+(* every answer of the poller getters and of plugincommon.ChainSupport after ANY event list (either failure counter) is
+   the Roles accessor on the latest successfully fetched configuration: per-peer chain sets, SupportsDestChain, known
+   chains, fChain, per-chain config — no getter can lag behind another *)
+Theorem C12_history_role_map : forall reset evs O d f,
+  let v := views (prun home_fetch home_derive reset home_init evs) in
+  let g := cfg_of_home O d f (home_cfg_of evs) in
+  (forall p ch, memN ch (get_supported_chains v p) = reads g p ch) /\
+  (forall o, match get_chain_config v d with
+             | None => None
+             | Some cc => if memN o O then Some (memN o (cc_nodes cc)) else None
+             end = supports_dest g o) /\
+  (forall ch, memN ch (get_known_chains v) = memN ch (home_chains g)) /\
+  (forall ch, option_map Z.of_N (alookup ch (get_fchain v)) = alookup ch (home_fchain g)) /\
+  (forall ch, option_map cc_pair (get_chain_config v ch) = alookup ch (c_chains g)).
+Proof. exact api_latest. Qed.
+Print Assumptions C12_history_role_map.
+
+(* the scripted polls of the harness (one short page each, or a failed read): the role map read off the poller's state
+   machine = the role map of the most recent successful poll *)
+Theorem C12_history_scripted_polls : forall O d f polls,
+  Forall short_poll polls -> hist_cfg O d f polls = spec_cfg O d f polls.
+Proof. exact hist_cfg_spec. Qed.
+Print Assumptions C12_history_scripted_polls.
+
+(* non-vacuity: oracle 2 loses chain 5 (keeps 9), a poll fails, chain 5 is given back: accepted, rejected, rejected
+   (the last good map stays), accepted *)
+Theorem C12_history_example :
+  hrun ex_O 9 9 ex_hist =
+  [None; None; Some (OVerdict true); None; Some (OVerdict false); None; Some (OVerdict false); None;
+   Some (OVerdict true)].
+Proof. exact hist_example. Qed.
+Print Assumptions C12_history_example.
